@@ -239,7 +239,7 @@ def collect_obligations(ctx, vfile):
     blocks = re.split(r"(?m)^(?=Closed under the global context|Axioms:)", out)
     blocks = [b for b in blocks if b.startswith("Closed under") or b.startswith("Axioms:")]
     for i, n in enumerate(names):
-        if vfile == "Properties_gen.v" and not n.startswith(ctx.prop + "_"):
+        if vfile in ("Properties_gen.v", "Properties_float.v") and not n.startswith(ctx.prop + "_"):
             continue      # the file holds the generated-model theorems of several properties; each check lists its own
         if vfile == "Properties_compose.v" and not re.match(COMPOSE_OF.get(ctx.prop, "^$"), n):
             continue      # cross-layer corollaries: each check lists those about its property
